@@ -2,6 +2,7 @@ package main
 
 import (
 	"go/constant"
+	"go/token"
 	"strings"
 
 	"golang.org/x/tools/go/ssa"
@@ -874,4 +875,122 @@ func returnsOfOpt(fn *ssa.Function) []*ssa.Return {
 		return nil
 	}
 	return returnsOf(fn)
+}
+
+// ruleAvgInfinityGuard (FE-CLASS): the running average treats infinities as Prometheus does. Over the
+// finite set of classes (average so far: finite / +Inf / -Inf; new value: finite / +Inf / -Inf / NaN)
+// the update is skipped exactly when the average is infinite and the new value is neither NaN nor an
+// infinity of the opposite sign (so +Inf and -Inf in one group give NaN, and a NaN always wins).
+func ruleAvgInfinityGuard(r *Run) {
+	p := r.P
+	fn := p.Method(metricPkg, "AvgAggregator", "Apply")
+	o := r.Ob("FE-CLASS", "logqlmetric.(*AvgAggregator).Apply infinities", "an infinite running average is kept unless the new value is NaN or an infinity of the opposite sign (then the average becomes NaN); in every other case the value is folded in")
+	if fn == nil || len(fn.Params) != 2 {
+		o.Fail("-", "method not found")
+		return
+	}
+	type cls struct {
+		name     string
+		inf, nan bool
+		pos      bool
+	}
+	avgs := []cls{{"finite", false, false, true}, {"+Inf", true, false, true}, {"-Inf", true, false, false}}
+	vals := []cls{{"finite", false, false, true}, {"+Inf", true, false, true}, {"-Inf", true, false, false}, {"NaN", false, true, false}}
+	which := func(v ssa.Value) string {
+		v = unspill(v)
+		if v == ssa.Value(fn.Params[1]) {
+			return "v"
+		}
+		if f, base, ok := loadOfField(v); ok && f == "avg" && unspill(base) == ssa.Value(fn.Params[0]) {
+			return "avg"
+		}
+		return ""
+	}
+	bad := false
+	for _, a := range avgs {
+		for _, v := range vals {
+			a, v := a, v
+			get := func(w string) cls {
+				if w == "avg" {
+					return a
+				}
+				return v
+			}
+			hook := func(w *feWalker, st *feState, x ssa.Value) (constant.Value, bool) {
+				switch y := x.(type) {
+				case *ssa.Call:
+					pk, nm := calleePkgName(y)
+					if pk != "math" || len(y.Call.Args) == 0 {
+						return nil, false
+					}
+					wh := which(y.Call.Args[0])
+					if wh == "" {
+						return nil, false
+					}
+					c := get(wh)
+					switch nm {
+					case "IsNaN":
+						return constant.MakeBool(c.nan), true
+					case "IsInf":
+						sign, ok := constInt(y.Call.Args[1])
+						if !ok {
+							return nil, false
+						}
+						switch {
+						case sign == 0:
+							return constant.MakeBool(c.inf), true
+						case sign > 0:
+							return constant.MakeBool(c.inf && c.pos), true
+						default:
+							return constant.MakeBool(c.inf && !c.pos), true
+						}
+					}
+				case *ssa.BinOp:
+					// sign tests against zero
+					wh := which(y.X)
+					z, isz := constOf(y.Y)
+					if wh == "" || !isz || constant.Sign(z) != 0 {
+						return nil, false
+					}
+					c := get(wh)
+					if c.nan {
+						return constant.MakeBool(y.Op == token.NEQ), true
+					}
+					if !c.inf {
+						return nil, false // the sign of a finite value is not fixed by the class
+					}
+					switch y.Op {
+					case token.GTR, token.GEQ:
+						return constant.MakeBool(c.pos), true
+					case token.LSS, token.LEQ:
+						return constant.MakeBool(!c.pos), true
+					}
+				}
+				return nil, false
+			}
+			w := &feWalker{Fn: fn, Hook: hook, MaxPath: 2000}
+			skip, fold := false, false
+			for _, e := range w.Run() {
+				updated := false
+				for _, st := range e.State.stores {
+					if f, _, ok := fieldNameOf(st.Store.Addr); ok && (f == "avg" || f == "count") {
+						updated = true
+					}
+				}
+				if updated {
+					fold = true
+				} else {
+					skip = true
+				}
+			}
+			wantSkip := a.inf && !v.nan && !(v.inf && v.pos != a.pos)
+			if skip == fold || skip != wantSkip {
+				bad = true
+				o.Fail(r.pos(fn.Pos()), "average %s, new value %s: the update is %s, expected %s", a.name, v.name, map[bool]string{true: "skipped", false: "applied"}[skip && !fold], map[bool]string{true: "skipped", false: "applied"}[wantSkip])
+			}
+		}
+	}
+	if !bad {
+		o.OK("12 (average class, value class) cases agree").At(r.pos(fn.Pos()))
+	}
 }
